@@ -568,7 +568,17 @@ def _floordiv(a, b):
     return z3.If(z3.And(b < 0, r != 0), q - 1, q)
 
 
+DUAL = [False]     # A3: complex values are dual numbers a + eps*b with eps**2 = 0 (set per contract)
+
+
 def cx_arith(op, a, b, fp=False):
+    if DUAL[0] and op == '*':
+        return Cx(scalar_arith('*', a.re, b.re, fp),
+                  scalar_arith('+', scalar_arith('*', a.re, b.im, fp), scalar_arith('*', a.im, b.re, fp), fp))
+    if DUAL[0] and op == '/':
+        den = scalar_arith('*', b.re, b.re, fp)
+        im = scalar_arith('-', scalar_arith('*', a.im, b.re, fp), scalar_arith('*', a.re, b.im, fp), fp)
+        return Cx(scalar_arith('/', a.re, b.re, fp), scalar_arith('/', im, den, fp))
     if op == '+':
         return Cx(scalar_arith('+', a.re, b.re, fp), scalar_arith('+', a.im, b.im, fp))
     if op == '-':
